@@ -10,7 +10,7 @@ Survivors are triaged by hand (equivalent mutant / outside the property / gap) i
 """
 import json, os, random, re, subprocess, sys, shutil, time
 
-ROOT = "/tmp/msweep"
+ROOT = os.environ.get("MSWEEP_ROOT", "/tmp/msweep")
 REPO = f"{ROOT}/repo"
 VERIF = f"{ROOT}/verif"
 
@@ -34,6 +34,10 @@ GROUPS = {
     "C18": (["duke/src/tree/descriptor.rs", "duke/src/tree/mod.rs"], ["C18", "C02"]),
     "C19": (["maven_dependency_resolver/src/lib.rs", "maven_dependency_resolver/src/maven_pom_done.rs", "maven_dependency_resolver/src/tree.rs", "maven_dependency_resolver/src/coord.rs"], ["C19"]),
     "C20": (["raw_class_file/src/lib.rs", "raw_class_file/src/macros.rs"], ["C20"]),
+    "Q1": (["quill/src/tree/mappings.rs", "quill/src/tree/mod.rs", "quill/src/tree/mappings_diff.rs", "quill/src/tree/names.rs"], ["C03", "C04", "C09", "C08", "C11", "C06"]),
+    "J1": (["dukebox/src/storage/parsed.rs", "dukebox/src/storage/zip_impls.rs", "dukebox/src/storage/opened_jar.rs", "dukebox/src/storage/lazy_class_file.rs", "dukebox/src/storage/jar_entry.rs", "dukebox/src/storage/zip_mem_unnamed.rs", "dukebox/src/storage/zip_mem_named.rs", "dukebox/src/storage/is_class.rs"], ["C07", "C13", "C14", "C15"]),
+    "D1": (["duke/src/jstring.rs", "duke/src/lib.rs", "duke/src/class_constants.rs", "duke/src/tree/annotation.rs", "duke/src/tree/type_annotation.rs", "duke/src/tree/module.rs", "duke/src/tree/version.rs"], ["C01", "C02", "C18", "C17"]),
+    "V1": (["duke/src/visitor/implementations/tree.rs", "duke/src/visitor/simple/class.rs", "duke/src/visitor/implementations/unit_tuple.rs", "duke/src/visitor/class.rs", "duke/src/visitor/method.rs", "duke/src/visitor/method/code.rs"], ["C17", "C01", "C15"]),
 }
 
 OPS = [
